@@ -105,6 +105,7 @@ func vnRunOnce(rf *vnReplayFile) (st *vnReplayState, outcome string) {
 
 func TestVNReplay(t *testing.T) {
 	debug.SetMaxStack(64 << 20)
+	hQuietLogs()
 	p := os.Getenv("VN_REPLAY")
 	var files []string
 	if fi, err := os.Stat(p); err == nil && fi.IsDir() {
@@ -229,7 +230,10 @@ func nativeRun(cfg *Config, ld *Loaded, spec *PropSpec, replayPath string, timeo
 	goArgs := []string{"test", "-tags", "verif", "-vet=off", "-count=1", "-v", "-run", "^TestVNReplay$",
 		"-overlay", ovPath, "-timeout", fmt.Sprintf("%ds", int(timeout.Seconds())-5)}
 	if race {
-		goArgs = append(goArgs, "-race")
+		// the two goroutines must actually overlap for the detector to see the pair of
+		// accesses unordered (the library's logger takes a lock that often orders them)
+		goArgs[4] = "-count=60"
+		goArgs = append(goArgs, "-race", "-failfast")
 	}
 	goArgs = append(goArgs, "./"+pkgRel(spec.Pkg))
 	cmd := exec.CommandContext(ctx, "go", goArgs...)
@@ -239,6 +243,9 @@ func nativeRun(cfg *Config, ld *Loaded, spec *PropSpec, replayPath string, timeo
 	cmd.Stdout = &out
 	cmd.Stderr = &out
 	err = cmd.Run()
+	if os.Getenv("GOSE_DEBUG_REPLAY") != "" {
+		fmt.Fprintln(os.Stderr, "native replay:", strings.Join(goArgs, " "), "\n", out.String())
+	}
 	return out.String(), err
 }
 
@@ -391,6 +398,9 @@ func ReplayCommand(args []string) int {
 	if len(args) < 1 {
 		fmt.Println("usage: gose replay <replay.json>")
 		return 2
+	}
+	if abs, err := filepath.Abs(args[0]); err == nil {
+		args[0] = abs
 	}
 	b, err := os.ReadFile(args[0])
 	if err != nil {
